@@ -92,7 +92,8 @@ def op_strategy(depth=1, only_tr=False):
                       st.one_of(st.integers(-8, 8).map(lambda k: k / 4.0),
                                 st.floats(min_value=-3, max_value=3))).map(
             lambda t: {"op": "nudge", "axis": t[0], "d": t[1]})),
-        (2, st.fixed_dictionaries({"op": st.sampled_from(["set_axis", "move_absolute", "auto_home"]),
+        (3, st.fixed_dictionaries({"op": st.sampled_from(["set_axis", "move_absolute", "auto_home",
+                                                          "rapid_absolute", "move_absolute"]),
                                    "pt": pt, "form": st.just("kw")})),
         (2, st.fixed_dictionaries({"op": st.just("shape"), "d": hist.shape_strategy(2),
                                    "dir": st.sampled_from(["cw", "ccw"])})),
@@ -200,9 +201,21 @@ class Runner:
             g.set_distance_mode(op["mode"])
             s.poll()
             return
-        if name in ("set_axis", "move_absolute", "auto_home"):
+        if name in ("set_axis", "move_absolute", "rapid_absolute", "auto_home"):
             hist.exec_primitive(g, op)
             s.poll()
+            if name in ("move_absolute", "rapid_absolute") and op["pt"]:
+                # bypass moves go to the RAW machine target whatever transform
+                # and distance mode are in force
+                for ax, v in op["pt"].items():
+                    mp = s.machine.pos[ax.upper()]
+                    if mp is None or abs(float(mp) - float(v)) > float(s.U) + 1e-9 * (1 + abs(v)):
+                        raise Violation(f"{op!r} under an active transform ("
+                                        f"{'relative' if g.distance_mode.is_relative else 'absolute'}"
+                                        f" mode): the machine ends at {ax.upper()}="
+                                        f"{None if mp is None else float(mp)!r}, the bypass move "
+                                        f"asked for {v!r}; last lines {[b[2] for b in s.blocks[-3:]]!r}")
+                self.cl.add("bypass_move_under_transform")
             self.synced = False
             return
         if name == "shape":
